@@ -13,7 +13,21 @@ from vlib.registry import CHECKS, NOT_APPLICABLE, HOOK_COMMITS  # noqa: E402
 ALL = ["C%02d" % i for i in range(1, 21)]
 
 
+def tracked_only():
+    """With --tracked only fragments that are committed (git ls-files) are listed, so that a manifest
+    committed while other checks are still under construction stays consistent with the commit."""
+    import subprocess
+    if "--tracked" not in sys.argv:
+        return
+    files = subprocess.check_output(["git", "-C", HERE, "ls-files", "vlib"]).decode().split()
+    for pid in list(CHECKS):
+        frag = "vlib/reg_%s.py" % pid
+        if os.path.exists(os.path.join(HERE, frag)) and frag not in files:
+            del CHECKS[pid]
+
+
 def main():
+    tracked_only()
     checks = []
     for pid in ALL:
         c = CHECKS.get(pid)
